@@ -39,9 +39,8 @@ def psf1d(kind, size, param):
         P = np.exp(-0.5 * x ** 2 / param ** 2)
     elif kind == "moffat":
         P = 1.0 / (1 + x ** 2 / param ** 2)
-    else:  # defocus: uniform disc of radius param around the centre
-        k = np.arange(1, size + 1)
-        P = ((k - int(size / 2)) ** 2 <= param ** 2).astype(float)
+    else:  # defocus: uniform on the pixels within distance param of the centre pixel (the same pixel grid as the other kernels)
+        P = (x ** 2 <= param ** 2).astype(float)
     return P / P.sum()
 
 
@@ -352,7 +351,13 @@ def run_pde(c, rec):
                 u = u + (times[k + 1] - times[k]) * (Dxx @ u)
             return u
     gobs = np.asarray(model.range_geometry.grid, dtype=float)
+    nodes_ref = grid_sol.copy()                              # the solution nodes of the documented discretisation on [0, endpoint]
     grid_sol = np.asarray(model.pde.grid_sol, dtype=float)  # node labels used by the problem for observation
+    require(len(grid_sol) == len(nodes_ref) and close(grid_sol, nodes_ref, 1e-12),
+            f"{which}: the solution grid the problem reports is not the grid of its discretisation on [0, endpoint]", got=grid_sol, want=nodes_ref)
+    want_obs = nodes_ref if OBSMAPS[c["obs_map"]] is None else np.asarray(OBSMAPS[c["obs_map"]](nodes_ref), dtype=float)
+    require(len(gobs) == len(want_obs) and close(gobs, want_obs, 1e-12),
+            f"{which}: the range geometry is not placed on the observation nodes (observation_grid_map applied to the solution nodes)", got=gobs, want=want_obs)
 
     def observe(u):
         if len(gobs) == len(grid_sol) and np.allclose(gobs, grid_sol):
